@@ -369,8 +369,13 @@ func (e *CoreExtension) filterSplit(value interface{}, args ...interface{}) (int
 	// Handle multiple character delimiters (split on any character in the delimiter)
 	if len(delimiter) > 1 {
 		// Convert delimiter string to a regex character class
-		pattern := "[" + regexp.QuoteMeta(delimiter) + "]"
-		re := regexp.MustCompile(pattern)
+		// (QuoteMeta leaves the dash alone: unescaped it makes a range of its
+		// neighbours, and a descending one such as "z-a" does not even compile)
+		pattern := "[" + strings.ReplaceAll(regexp.QuoteMeta(delimiter), "-", `\-`) + "]"
+		re, err := regexp.Compile(pattern)
+		if err != nil {
+			return nil, fmt.Errorf("split: cannot use %q as a set of separators: %w", delimiter, err)
+		}
 
 		if limit > 0 {
 			// Manual split with limit
